@@ -54,6 +54,7 @@ mod verif_map {
     #[kani::proof]
     #[kani::unwind(4)]
     fn map_keys_are_id_and_type() {
+        unsafe { crate::utils::model_collections::MODEL_MAP_ADVERSARIAL = true; } // colliding hashes allowed
         let mut map = AssetMap::verif_single_shard();
         let v1: u64 = kani::any();
         let h1 = thin(map.insert(entry(1, v1, "a")));
